@@ -47,6 +47,8 @@ use vh::util::{read_ndjson, repo_root, NdWriter};
 
 #[path = "c03_purity/imgenc.rs"]
 mod imgenc;
+#[path = "c03_purity/vargen.rs"]
+mod vargen;
 
 // ---- fonts ------------------------------------------------------------------------------------
 
@@ -721,6 +723,114 @@ fn img_selfcheck(cfg: &FontCfg) -> Value {
     json!({"font": cfg.name, "imgs": imgs, "tables_expected": imgs.count_ones(), "tables_found_with_payload": ok, "stray_tables": stray})
 }
 
+// ---- the variable font of the `var` family ---------------------------------------------------------
+
+const VAR_WORDS: [&str; 4] = ["1/2 AVWXB 12/21", "CDE AV 2/1", "\u{0628}\u{0644}\u{0627} \u{0644}\u{0628}\u{0628}", "\u{0628}\u{0628}"];
+
+fn var_font(desc: &Value) -> FontCfg {
+    let specs = vargen::vspecs(&desc["lookups"]);
+    let mut f = TtFont::new((0..vargen::VAR_GLYPHS).map(|i| if i == 0 { GlyphSpec::Empty } else { triangle(i as i16) }).collect());
+    let mut cmap = layout_cmap();
+    // beh lam alef share the glyphs of p q r (the layout's Coverage contents name them so)
+    cmap.extend([(0x0628u32, gid('p')), (0x0644, gid('q')), (0x0627, gid('r'))]);
+    cmap.sort();
+    f.cmap = cmap;
+    f.extra_tables.push(("fvar".into(), vargen::fvar()));
+    f.extra_tables.push(("GDEF".into(), vargen::gdef(&specs)));
+    for tbl in ["GSUB", "GPOS"] {
+        f.extra_tables.push((tbl.into(), vargen::build_layout(tbl, &specs, &gid)));
+    }
+    let mut feats: Vec<String> = specs.iter().map(|s| s.feat.clone()).collect();
+    feats.sort();
+    feats.dedup();
+    let data = f.build();
+    // damaged kinds: the table is cut off after 3 bytes (its load fails, Font::new succeeds)
+    let kinds: Vec<String> = desc["damaged"].as_array().map(|a| a.iter().map(|k| k.as_str().unwrap().to_string()).collect()).unwrap_or_default();
+    let damage = Damage { items: kinds.iter().flat_map(|k| kind_tags(k, &data)).map(|t| (t, Mode::Trunc(3))).collect() };
+    FontCfg {
+        name: match desc["sub"].as_str() { Some("") | None => "var".into(), Some(s) => format!("var-{}", s) },
+        data,
+        scripts: [tagv("latn"), tagv("cyrl")],
+        lang: tagv("dflt"),
+        words: VAR_WORDS.iter().map(|w| w.to_string()).collect(),
+        fam: "var",
+        damage,
+        desc: desc.clone(),
+        feats,
+        l2feats: vec![],
+    }
+}
+
+/// Facts about the var font measured on its bytes and on the layout (own reader, own arithmetic): the lookups,
+/// Coverages and the script -> feature -> lookup structure are what the layout dictates; the adjustments the item
+/// variation store yields differ between the tuples of the model.
+fn var_selfcheck(cfg: &FontCfg) -> Value {
+    let specs = vargen::vspecs(&cfg.desc["lookups"]);
+    let dir = read_sfnt_dir(&cfg.data, 0).expect("sfnt");
+    let mut confirmed = 0usize;
+    let mut ok = true;
+    for tbl in ["GSUB", "GPOS"] {
+        match table_bytes(&cfg.data, &dir, tbl).and_then(|t| vargen::walk(tbl, t, &specs, &gid)) {
+            Some(n) => confirmed += n,
+            None => ok = false,
+        }
+    }
+    let vectors: std::collections::BTreeSet<Vec<i32>> = vargen::TUPLES.iter().map(|(_, t)| vargen::expected_deltas(&specs, t)).collect();
+    let failing_rvrn_scripts: Vec<&str> = vargen::SCRIPTS.iter().filter(|(id, _)| specs.iter().any(|s| s.tbl == "GSUB" && s.feat == "rvrn" && vargen::is_broken(s) && s.scr.iter().any(|x| x == id))).map(|(id, _)| *id).collect();
+    let substituting_rvrn_scripts: Vec<&str> = vargen::SCRIPTS.iter().filter(|(id, _)| {
+        let mine: Vec<&vargen::VSpec> = specs.iter().filter(|s| s.tbl == "GSUB" && s.feat == "rvrn" && s.scr.iter().any(|x| x == id)).collect();
+        !mine.is_empty() && mine.iter().all(|s| !vargen::is_broken(s))
+    }).map(|(id, _)| *id).collect();
+    // the tuples of the model that satisfy the condition of the FeatureVariations record, by the harness's arithmetic
+    let fvt_expected: Vec<&str> = vargen::TUPLES.iter().filter(|(_, t)| vargen::fv_holds(t)).map(|(n, _)| *n).collect();
+    let fvt_ok = match cfg.desc.get("fvt") {
+        Some(v) => vargen::has_fv("GSUB", &specs) && v.as_array().map(|a| a.iter().map(|x| x.as_str().unwrap_or("")).collect::<Vec<_>>() == fvt_expected).unwrap_or(false),
+        None => !vargen::has_fv("GSUB", &specs) && !vargen::has_fv("GPOS", &specs),
+    };
+    json!({"font": cfg.name, "layout_confirmed": ok, "facts_confirmed": confirmed, "delta_rows": vargen::rows(&specs).len(),
+           "feature_variations": vargen::has_fv("GSUB", &specs), "fvt_matches_condition": fvt_ok, "damaged": cfg.desc["damaged"],
+           "distinct_adjustment_vectors_over_tuples": vectors.len(), "tuples": vargen::TUPLES.len(),
+           "scripts_whose_rvrn_fails": failing_rvrn_scripts, "scripts_whose_rvrn_substitutes": substituting_rvrn_scripts,
+           "has_fvar": table_bytes(&cfg.data, &dir, "fvar").is_some(), "has_gdef": table_bytes(&cfg.data, &dir, "GDEF").is_some()})
+}
+
+fn var_tuple(id: &str) -> Option<Vec<f32>> {
+    vargen::TUPLES.iter().find(|(n, _)| *n == id).map(|(_, t)| t.to_vec())
+}
+
+/// What allsorts answers on a FRESH var font (diagnostic, judged by the driver only after the violations): positioning
+/// differs between tuples exactly as the adjustments computed from the layout do; a run whose rvrn fails reports an
+/// error, a run whose rvrn substitutes differs from the run without a tuple; the fraction forms appear under a tuple.
+fn var_fresh_results(cfg: &FontCfg) -> Value {
+    let specs = vargen::vspecs(&cfg.desc["lookups"]);
+    let shape = |text: &str, script: &str, tuple: Option<Vec<f32>>, mask: u64| {
+        let c = Call::Shape { text: text.into(), script: tagv(script), lang: None, mask, custom: false, ctags: vec![], tuple, kern: true };
+        run_both(cfg, &[], &c).1
+    };
+    let mut by_vec: BTreeMap<Vec<i32>, std::collections::BTreeSet<String>> = BTreeMap::new();
+    for (_, t) in vargen::TUPLES.iter() {
+        by_vec.entry(vargen::expected_deltas(&specs, t)).or_default().insert(shape("AVWX", "latn", Some(t.to_vec()), 0));
+    }
+    let all: std::collections::BTreeSet<&String> = by_vec.values().flatten().collect();
+    let m = (FeatureMask::FRAC | FeatureMask::LIGA).bits();
+    let frac_plain = shape("1/2", "latn", None, m);
+    let frac_var = shape("1/2", "latn", Some(vec![1.0, 0.0]), m);
+    let nofrac_var = shape("1/2", "latn", Some(vec![1.0, 0.0]), FeatureMask::LIGA.bits());
+    let gdef_damaged = cfg.desc["damaged"].as_array().map(|a| a.iter().any(|k| k == "gdef")).unwrap_or(false);
+    let fv = vargen::has_fv("GSUB", &specs);
+    json!({"font": cfg.name, "adjustment_vectors": by_vec.len(), "distinct_positionings": all.len(),
+           // without a GDEF there are no deltas: one positioning whatever the tuple
+           "expected_distinct_positionings": if gdef_damaged { 1 } else { by_vec.len() },
+           "feature_variations_effective": !fv || (shape("AVWX", "latn", Some(vec![1.0, 0.0]), FeatureMask::LIGA.bits()).contains("glyph_index: 92")
+               && !shape("AVWX", "latn", Some(vec![0.5, 0.0]), FeatureMask::LIGA.bits()).contains("glyph_index: 92")),
+           "one_positioning_per_vector": gdef_damaged || by_vec.values().all(|v| v.len() == 1),
+           "failing_rvrn_reports_error": is_error_result(&shape("AB", "cyrl", Some(vec![1.0, 0.0]), m)) && is_error_result(&shape("AB", "grek", Some(vec![0.0, 0.0]), m))
+               && (gdef_damaged || !is_error_result(&shape("AB", "cyrl", None, m))),
+           "failing_main_stage_reports_error": is_error_result(&shape("AB", "grek", None, FeatureMask::CALT.bits())),
+           "rvrn_and_frac_effective": frac_plain != frac_var && frac_var != nofrac_var,
+           "arabic_forms_depend_on_rvrn": shape("\u{0628}\u{0628}", "arab", None, 0) != shape("\u{0628}\u{0628}", "arab", Some(vec![0.0, 0.0]), 0)})
+}
+
 fn fonts() -> Vec<FontCfg> {
     let root = repo_root();
     let rd = |p: &str| std::fs::read(format!("{}/{}", root, p)).unwrap_or_default();
@@ -780,6 +890,58 @@ fn keys_desc() -> Value {
                "objs": [{"kind": "cov", "pos": sub + 8, "rel": 8, "content": c}], "nested": []})
     }).collect();
     json!({"fam": "fill", "damaged": [], "lookups": lookups, "imgs": 0, "sub": "keys"})
+}
+
+/// The layout of the var font as MC_FontCache defines it (VarLayout), for the random histories; `shift` moves the
+/// sub-tables (the random histories use their own positions).
+fn var_desc_shifted(shift: usize, kind: &str) -> Value {
+    let all = ["s1", "s2", "s3", "s4", "s5"];
+    let l = |tbl: &str, idx: usize, feat: &str, typ: &str, content: &str, scr: &[&str], regs: &[usize]| {
+        let sub = 2560 + shift + 64 * idx;
+        let objs = if ["missing", "badtype", "badcov"].contains(&typ) { json!([]) } else { json!([{"kind": "cov", "pos": sub + 32, "rel": 32, "content": content}]) };
+        json!({"tbl": tbl, "idx": idx, "feat": feat, "typ": typ, "ext": false, "sub": sub, "l2": false, "objs": objs, "nested": [], "scr": scr, "regs": regs})
+    };
+    let lookups = vec![
+        l("GSUB", 0, "rvrn", "single", "12B", &["s1", "s2"], &[]),
+        l("GSUB", 1, "frac", "single", "^1^2", &["s1"], &[]),
+        l("GSUB", 2, "liga", "single", "A", &["s1", "s2", "s3", "s5"], &[]),
+        l("GSUB", 3, "rvrn", "single", "p", &["s4"], &[]),
+        l("GSUB", 4, "init", "single", "^pq", &["s4"], &[]),
+        l("GSUB", 5, "fina", "single", "^pqr", &["s4"], &[]),
+        l("GSUB", 6, "medi", "single", "^pq", &["s4"], &[]),
+        l("GSUB", 7, "calt", "badtype", "", &["s3"], &[]),
+        l("GSUB", 8, "locl", "single", "D", &["s1", "s2"], &[]),
+        l("GSUB", 9, "rvrn", "badtype", "", &["s3"], &[]),
+        l("GSUB", 10, "locl", "badcov", "", &["s3"], &[]),
+        l("GSUB", 20, "rvrn", "missing", "", &["s2"], &[]),
+        l("GPOS", 0, "kern", "vsingle", "AV", &all, &[0]),
+        l("GPOS", 1, "dist", "vplace", "WX", &all, &[1, 2, 3]),
+        l("GPOS", 2, "kern", "single", "C", &all, &[]),
+    ];
+    match kind {
+        "dmg" => json!({"fam": "var", "damaged": ["gdef"], "lookups": lookups, "imgs": 0, "sub": "dmg", "fv": false}),
+        "fv" => {
+            let mut lookups = lookups;
+            lookups[2]["alt"] = json!("dflt");
+            for (mut x, a) in [(l("GSUB", 11, "liga", "single", "V", &["s1", "s2", "s3", "s5"], &[]), "alt"), (l("GSUB", 13, "rvrn", "single", "X", &["s1"], &[]), "alt"),
+                               (l("GSUB", 14, "rvrn", "single", "q", &["s4"], &[]), "alt"), (l("GPOS", 3, "kern", "vsingle", "W", &all, &[1]), "alt")] {
+                x["alt"] = json!(a);
+                lookups.push(x);
+            }
+            json!({"fam": "var", "damaged": [], "lookups": lookups, "imgs": 0, "sub": "fv", "fv": true, "fvt": ["tA"]})
+        }
+        _ => json!({"fam": "var", "damaged": [], "lookups": lookups, "imgs": 0, "sub": "", "fv": false}),
+    }
+}
+fn var_desc() -> Value {
+    var_desc_shifted(128, "")
+}
+
+fn var_tuple_id(tuple: &Option<Vec<f32>>) -> String {
+    match tuple {
+        None => "none".to_string(),
+        Some(t) => vargen::TUPLES.iter().find(|(_, c)| c[..] == t[..]).map(|(n, _)| n.to_string()).unwrap_or(format!("{:?}", t)),
+    }
 }
 
 fn is_l2(feat: &str) -> bool {
@@ -1039,6 +1201,11 @@ fn base36(n: u32) -> String {
 /// Script identity of the model -> tag: s1 / s2 are the font's two scripts, s<n> is a script nobody has heard of
 /// (ScriptType::Default, falls back to the DFLT script of the font).
 fn script_of(id: &str, cfg: &FontCfg) -> u32 {
+    if cfg.fam == "var" {
+        if let Some((_, t)) = vargen::SCRIPTS.iter().find(|(s, _)| *s == id) {
+            return tagv(t);
+        }
+    }
     match id.strip_prefix('s').and_then(|n| n.parse::<u32>().ok()) {
         Some(1) | None => cfg.scripts[0],
         Some(2) => cfg.scripts[1],
@@ -1088,9 +1255,10 @@ fn concretise(c: &Value, cfg: &FontCfg) -> Call {
             // `mfeats` (when given): the features the caller names; `feats`: those of them that are in force
             let feats: Vec<u32> = c.get("mfeats").unwrap_or(&c["feats"]).as_array().map(|a| a.iter().map(|f| tag_u32(f.as_str().unwrap())).collect()).unwrap_or_default();
             // fonts whose layout the model knows: the mask / custom list is the set of features the call names
-            let collide = cfg.fam == "collide" || (cfg.fam == "fill" && !cfg.feats.is_empty());
+            let collide = cfg.fam == "collide" || cfg.fam == "var" || (cfg.fam == "fill" && !cfg.feats.is_empty());
             Call::Shape {
-            text: cfg.words[0].clone(),
+            // var: the Arabic words under the Arabic script
+            text: if cfg.fam == "var" && s("script") == "s4" { cfg.words[2].clone() } else { cfg.words[0].clone() },
             script: script_of(s("script"), cfg),
             lang: lang_of(s("lang"), cfg),
             // m1 and m2 must stay different after gsub_apply_default intersects them with the
@@ -1101,6 +1269,7 @@ fn concretise(c: &Value, cfg: &FontCfg) -> Call {
             custom: c["custom"].as_bool().unwrap_or(false),
             ctags: if collide { feats.clone() } else { vec![allsorts::tag::LIGA] },
             tuple: match s("tuple") {
+                t if cfg.fam == "var" => var_tuple(t),
                 "tA" => Some(vec![0.0]),
                 "tB" => Some(vec![1.0]),
                 _ => None,
@@ -1137,6 +1306,9 @@ struct Universe {
     fill: BTreeMap<String, Vec<Rc<FontCfg>>>,
     fill_selfchecks: Vec<Value>,
     fill_fresh: Vec<Value>,
+    var: BTreeMap<String, Vec<Rc<FontCfg>>>,
+    var_selfchecks: Vec<Value>,
+    var_fresh: Vec<Value>,
 }
 
 /// Facts about a fill font measured on its bytes (own reader): every Coverage of the layout lies where the
@@ -1163,7 +1335,8 @@ impl Universe {
         let bases = damage_bases(&intact);
         let intact = intact.into_iter().map(Rc::new).collect();
         Universe { intact, bases, dmg: BTreeMap::new(), collide: BTreeMap::new(), dropped: 0, selfchecks: vec![],
-                   img: BTreeMap::new(), img_selfchecks: vec![], img_fresh: vec![], fill: BTreeMap::new(), fill_selfchecks: vec![], fill_fresh: vec![] }
+                   img: BTreeMap::new(), img_selfchecks: vec![], img_fresh: vec![], fill: BTreeMap::new(), fill_selfchecks: vec![], fill_fresh: vec![],
+                   var: BTreeMap::new(), var_selfchecks: vec![], var_fresh: vec![] }
     }
 
     fn of(&mut self, desc: &Value, modes: &[Mode]) -> Vec<Rc<FontCfg>> {
@@ -1197,6 +1370,16 @@ impl Universe {
                     self.img.insert(imgs, vec![Rc::new(cfg)]);
                 }
                 self.img[&imgs].clone()
+            }
+            "var" => {
+                let key = format!("{}{}{}", desc["lookups"], desc["damaged"], desc["sub"]);
+                if !self.var.contains_key(&key) {
+                    let cfg = var_font(desc);
+                    self.var_selfchecks.push(var_selfcheck(&cfg));
+                    self.var_fresh.push(var_fresh_results(&cfg));
+                    self.var.insert(key.clone(), vec![Rc::new(cfg)]);
+                }
+                self.var[&key].clone()
             }
             "fill" => {
                 let sub = desc["sub"].as_str().unwrap_or("").to_string();
@@ -1297,6 +1480,14 @@ struct InputFacts {
     frac_probes_new_key_after_100: usize,
     scopes_routes_in_paths: std::collections::BTreeSet<String>,
     scopes_histories: usize,
+    /// var: histories ...
+    var_histories: usize,
+    /// ... in which a call whose rvrn stage fails (by the layout) precedes a tuple call whose rvrn substitutes
+    var_failed_rvrn_then_substituting_rvrn: usize,
+    /// ... in which a call whose main GSUB stage fails precedes another shaping call
+    var_failed_main_stage_then_shape: usize,
+    /// ... in which two calls with kerning carry different tuples whose adjustments (by the layout) differ
+    var_two_tuples_with_different_adjustments: usize,
 }
 
 const FRAC_BIT: u64 = FeatureMask::FRAC.bits();
@@ -1367,6 +1558,33 @@ impl InputFacts {
                 let e = self.fill_keys.entry(sub).or_default();
                 *e = (*e).max(n);
             }
+            "var" => {
+                self.var_histories += 1;
+                let specs = vargen::vspecs(&cfg.desc["lookups"]);
+                let sid = |script: u32| vargen::SCRIPTS.iter().find(|(_, t)| tagv(t) == script).map(|(s, _)| *s).unwrap_or("");
+                let rvrn_of = |script: u32| -> Vec<&vargen::VSpec> { let id = sid(script); specs.iter().filter(|s| s.tbl == "GSUB" && s.feat == "rvrn" && s.scr.iter().any(|x| x == id)).collect() };
+                let fails_rvrn = |c: &Call| matches!(c, Call::Shape { script, custom: false, tuple: Some(_), .. } if rvrn_of(*script).iter().any(|s| vargen::is_broken(s)));
+                let subst_rvrn = |c: &Call| matches!(c, Call::Shape { script, custom: false, tuple: Some(_), .. } if { let r = rvrn_of(*script); !r.is_empty() && r.iter().all(|s| !vargen::is_broken(s)) });
+                let fails_main = |c: &Call| matches!(c, Call::Shape { script, custom: false, tuple: None, mask, .. } if { let id = sid(*script);
+                    specs.iter().any(|s| s.tbl == "GSUB" && s.feat != "rvrn" && vargen::is_broken(s) && s.scr.iter().any(|x| x == id) && FeatureMask::from_tag(tag_u32(&s.feat)).bits() & *mask != 0) });
+                let all: Vec<&Call> = history.iter().chain(fan.iter()).collect();
+                let nh = history.len();
+                // a later call of the history, or any probe of the fan
+                let later = |k: usize, pred: &dyn Fn(&Call) -> bool| all.iter().enumerate().any(|(j, c)| (j > k || j >= nh) && j != k && pred(c));
+                if (0..nh).any(|k| fails_rvrn(all[k]) && later(k, &subst_rvrn)) {
+                    self.var_failed_rvrn_then_substituting_rvrn += 1;
+                }
+                if (0..nh).any(|k| fails_main(all[k]) && later(k, &|c| matches!(c, Call::Shape { .. }))) {
+                    self.var_failed_main_stage_then_shape += 1;
+                }
+                let adj = |c: &Call| match c {
+                    Call::Shape { tuple: Some(t), kern: true, .. } if t.len() == 2 => Some(vargen::expected_deltas(&specs, &[t[0], t[1]])),
+                    _ => None,
+                };
+                if (0..nh).any(|k| adj(all[k]).map(|a| later(k, &|c| adj(c).map(|b| b != a).unwrap_or(false))).unwrap_or(false)) {
+                    self.var_two_tuples_with_different_adjustments += 1;
+                }
+            }
             "scopes" => {
                 self.scopes_histories += 1;
                 for c in history {
@@ -1383,7 +1601,10 @@ impl InputFacts {
         json!({"img_histories": self.img_histories, "img_widen_after_query": self.widen_after_query, "img_narrow_after_query": self.narrow_after_query,
                "img_incomparable_after_query": self.other_after_query, "img_same_filter_after_query": self.same_after_query,
                "fill_distinct_keys_before_probe": self.fill_keys, "fill_frac_probes_on_new_key_after_100_keys": self.frac_probes_new_key_after_100,
-               "scopes_histories": self.scopes_histories, "scopes_routes_in_paths": self.scopes_routes_in_paths})
+               "scopes_histories": self.scopes_histories, "scopes_routes_in_paths": self.scopes_routes_in_paths,
+               "var_histories": self.var_histories, "var_failed_rvrn_then_substituting_rvrn": self.var_failed_rvrn_then_substituting_rvrn,
+               "var_failed_main_stage_then_shape": self.var_failed_main_stage_then_shape,
+               "var_two_tuples_with_different_adjustments": self.var_two_tuples_with_different_adjustments})
     }
 }
 
@@ -1468,7 +1689,8 @@ fn replay(cases: &str, out: &str) {
         "histories_by_family": fam_hist, "probes_by_family": fam_probes, "differs_by_family": fam_differs,
         "damaged_variants": uni.dmg.values().map(|v| v.len()).sum::<usize>(), "damaged_variants_dropped": uni.dropped,
         "damaged_probes_reporting_the_error": dmg_error_probes, "collide_selfcheck": uni.selfchecks,
-        "img_selfcheck": uni.img_selfchecks, "img_fresh_results": uni.img_fresh, "fill_selfcheck": uni.fill_selfchecks, "fill_fresh_results": uni.fill_fresh, "input_facts": facts.json()}));
+        "img_selfcheck": uni.img_selfchecks, "img_fresh_results": uni.img_fresh, "fill_selfcheck": uni.fill_selfchecks, "fill_fresh_results": uni.fill_fresh,
+        "var_selfcheck": uni.var_selfchecks, "var_fresh_results": uni.var_fresh, "input_facts": facts.json()}));
 }
 
 // ---- random long histories --------------------------------------------------------------------
@@ -1509,10 +1731,32 @@ fn abstract_of(c: &Call, cfg: &FontCfg) -> Value {
             }
             json!({"op": "MapGlyphs", "text": seq, "script": format!("{:08x}", script), "pres": if *required { "Req" } else { "NotReq" }})
         }
+        Call::Shape { text, script, lang, mask, custom, ctags, tuple, kern } if cfg.fam == "var" => {
+            // the script and tuple identities of the model; the features in force: the named ones (a mask never
+            // names rvrn: it is taken out), the forms under the Arabic shaper, and the GPOS features every run gets
+            let sid = vargen::SCRIPTS.iter().find(|(_, t)| tagv(t) == *script).map(|(s, _)| s.to_string()).unwrap_or(format!("{:08x}", script));
+            // (gsub_apply_default takes RVRN out of the mask before anything is keyed by it)
+            let eff = effective_mask(cfg, *script, *lang, *mask) & !RVRN_BIT;
+            let named: Vec<String> = cfg.feats.iter().filter(|f| {
+                let t = tag_u32(f);
+                if *custom { ctags.contains(&t) } else { *f != "rvrn" && FeatureMask::from_tag(t).bits() & *mask != 0 }
+            }).cloned().collect();
+            let mut feats: Vec<String> = if sid == "s4" && !*custom { vec!["fina".into(), "init".into(), "medi".into()] } else { named };
+            feats.push("dist".into());
+            if *kern {
+                feats.push("kern".into());
+            }
+            let frac = !*custom && sid != "s4" && eff & FRAC_BIT != 0;
+            let m = |x: u64| if *custom { format!("custom{:?}", ctags) } else { format!("{:x}", x) };
+            let tid = var_tuple_id(tuple);
+            json!({"op": "Shape", "text": text, "script": sid, "lang": format!("{:?}", lang),
+                   "mask": m(eff), "mask0": m(eff & !FRAC_BIT), "frac": frac, "tuple": tid, "kern": kern, "custom": custom, "feats": feats})
+        }
         Call::Shape { text, script, lang, mask, custom, ctags, tuple, kern } => {
             // the lookups cache is keyed by the mask AFTER intersection with the features the
             // font supports for (script, lang): that intersection is the identity the model needs
-            let eff = effective_mask(cfg, *script, *lang, *mask);
+            // (gsub_apply_default takes RVRN out of the mask before anything is keyed by it)
+            let eff = effective_mask(cfg, *script, *lang, *mask) & !RVRN_BIT;
             // the features of the layout (collide fonts) that this call enables
             let feats: Vec<&String> = cfg.feats.iter().filter(|f| {
                 let t = tag_u32(f);
@@ -1580,6 +1824,40 @@ fn random_call(rng: &mut StdRng, cfg: &FontCfg) -> Call {
             kind: o[0].to_string(),
             pos: o[1].parse().unwrap(),
             content: o[2].to_string(),
+        };
+    }
+    if cfg.fam == "var" {
+        let roll = rng.gen_range(0..14);
+        if roll == 0 {
+            return Call::Table { kind: ["gdef", "gsub", "gpos"][rng.gen_range(0..3)].to_string() };
+        }
+        if roll == 1 {
+            return Call::MapGlyphs { text: cfg.words[rng.gen_range(0..4)].clone(), script: tagv("latn"), required: false };
+        }
+        let script = ["latn", "latn", "latn", "cyrl", "cyrl", "grek", "arab", "arab", "zUNK", "hebr"][rng.gen_range(0..10)];
+        let tuple = match rng.gen_range(0..9) {
+            0 | 1 => None,
+            2..=6 => Some(vargen::TUPLES[rng.gen_range(0..vargen::TUPLES.len())].1.to_vec()),
+            _ => Some(vec![rng.gen_range(-4..5) as f32 / 4.0, rng.gen_range(-4..5) as f32 / 4.0]),
+        };
+        let custom = rng.gen_bool(0.15);
+        let mut ctags: Vec<u32> = ["liga", "locl", "frac", "rvrn", "calt"].iter().filter(|_| rng.gen_bool(0.4)).map(|t| tag_u32(t)).collect();
+        ctags.sort();
+        let mask = match rng.gen_range(0..7) {
+            0 => (FeatureMask::FRAC | FeatureMask::LIGA | FeatureMask::CALT).bits(),
+            1 => (FeatureMask::LIGA | FeatureMask::LOCL).bits(),
+            2 => FeatureMask::default().bits(),
+            3 => FeatureMask::default().bits() | FRAC_BIT,
+            4 => FeatureMask::all().bits(),
+            5 => 0,
+            _ => (FeatureMask::FRAC | FeatureMask::LIGA).bits(),
+        };
+        return Call::Shape {
+            text: cfg.words[if script == "arab" { 2 + rng.gen_range(0..2) } else { rng.gen_range(0..2) }].clone(),
+            script: tagv(script),
+            lang: if rng.gen_bool(0.3) { Some(cfg.lang) } else { None },
+            mask, custom, ctags, tuple,
+            kern: rng.gen_bool(0.7),
         };
     }
     if cfg.fam == "img" {
@@ -1763,6 +2041,10 @@ fn record(seed: u64, histories: usize, len: usize, fill: usize, out: &str) {
     let mut sc = scopes_cfg(&objs);
     sc.words = objs.iter().map(|(k, p, c)| format!("{}:{}:{}", k, p, c)).collect();
     let scopes = vec![Rc::new(sc)];
+    let mut var: Vec<Rc<FontCfg>> = Vec::new();
+    for kind in ["", "fv", "dmg"] {
+        var.extend(uni.of(&var_desc_shifted(64 * rng.gen_range(0..4usize), kind), &modes));
+    }
     let mut w = NdWriter::create(out);
     let mut i = 0u64;
     let mut n_differs = 0usize;
@@ -1772,15 +2054,26 @@ fn record(seed: u64, histories: usize, len: usize, fill: usize, out: &str) {
     let mut n_panics = 0usize;
     let mut facts = InputFacts::default();
     for h in 0..histories {
-        let pool = [&intact, &dmg, &collide, &img, &scopes][h % 5];
-        let cfg = &pool[(h / 5) % pool.len()];
+        let pool = [&intact, &dmg, &collide, &img, &scopes, &var][h % 6];
+        let cfg = &pool[(h / 6) % pool.len()];
         let case_id = format!("{}/r{}-{}", cfg.name, seed, h);
         *fam_hist.entry(cfg.fam.to_string()).or_default() += 1;
         i += 1;
-        w.write(&json!({"i": i, "case": case_id, "ev": "Init", "a": {"font": cfg.desc, "name": cfg.name}, "o": {}}));
+        // var: the calls are drawn first - the descriptor names the tuples of THIS history that satisfy the condition of
+        // the FeatureVariations record (harness arithmetic on the inputs)
+        let pre: Option<Vec<Call>> = if cfg.fam == "var" { Some((0..len).map(|_| random_call(&mut rng, cfg)).collect()) } else { None };
+        let mut desc = cfg.desc.clone();
+        if let (Some(calls), true) = (&pre, desc.get("fvt").is_some()) {
+            let ids: std::collections::BTreeSet<String> = calls.iter().filter_map(|c| match c {
+                Call::Shape { tuple: Some(t), .. } if t.len() == 2 && vargen::fv_holds(&[t[0], t[1]]) => Some(var_tuple_id(&Some(t.clone()))),
+                _ => None,
+            }).collect();
+            desc["fvt"] = json!(ids);
+        }
+        w.write(&json!({"i": i, "case": case_id, "ev": "Init", "a": {"font": desc, "name": cfg.name}, "o": {}}));
         let mut history: Vec<Call> = Vec::new();
-        for _ in 0..len {
-            let c = random_call(&mut rng, cfg);
+        for k in 0..len {
+            let c = match &pre { Some(v) => v[k].clone(), None => random_call(&mut rng, cfg) };
             let (after, fresh) = run_both(cfg, &history, &c);
             let differs = after != fresh;
             if differs {
@@ -1854,7 +2147,8 @@ fn record(seed: u64, histories: usize, len: usize, fill: usize, out: &str) {
         "input_facts": facts.json(), "fill_random_distinct_arguments": fill_args, "fill_random_fraction_calls": fill_frac_calls,
         "img_selfcheck": uni.img_selfchecks, "img_fresh_results": uni.img_fresh,
         "differs_by_family": fam_differs, "damaged_fonts": dmg.len(), "damaged_variants_dropped": uni.dropped,
-        "damaged_calls_reporting_the_error": dmg_error_calls, "calls_that_panicked": n_panics, "collide_selfcheck": uni.selfchecks}));
+        "damaged_calls_reporting_the_error": dmg_error_calls, "calls_that_panicked": n_panics, "collide_selfcheck": uni.selfchecks,
+        "var_selfcheck": uni.var_selfchecks, "var_fresh_results": uni.var_fresh}));
 }
 
 // ---- pure operations repeated -----------------------------------------------------------------
@@ -1944,6 +2238,13 @@ fn main() {
         Some("replay") => replay(&args[2], &args[3]),
         Some("record") => record(args[2].parse().unwrap(), args[3].parse().unwrap(), args[4].parse().unwrap(), args[5].parse().unwrap(), &args[6]),
         Some("repeat") => repeat(args[2].parse().unwrap(), &args[3]),
+        // diagnostic: what a fresh var font answers to one shaping call (script tag, tuple id or "none", mask bits, text)
+        Some("vardump") => {
+            let cfg = var_font(&var_desc());
+            let c = Call::Shape { text: args[5].clone(), script: tagv(&args[2]), lang: None, mask: u64::from_str_radix(&args[4], 16).unwrap(), custom: false, ctags: vec![],
+                                  tuple: var_tuple(&args[3]), kern: true };
+            println!("{}", run_both(&cfg, &[], &c).1);
+        }
         _ => {
             eprintln!("usage: c03_purity replay|record|repeat ...");
             std::process::exit(2);
